@@ -100,7 +100,7 @@ PARSE_FACTS = {
 
 PROPS = {}
 
-GEN_OPS = ("GNLI ", "GNC ", "GSPLIT ", "GFP ", "GSL ", "GSCAN ", "GFINITE ", "GVALID ", "GUT ", "GWT ", "GPARSE ", "GSESS ", "GCTRL ", "GFLD ")
+GEN_OPS = ("GNLI ", "GNC ", "GSPLIT ", "GFP ", "GSL ", "GSCAN ", "GFINITE ", "GVALID ", "GUT ", "GWT ", "GPARSE ", "GSESS ", "GCTRL ", "GFLD ", "GRST ")
 
 
 def with_gen(cmp):
@@ -161,7 +161,7 @@ PROPS["C20"] = {
     "facts": PARSE_FACTS,
 }
 
-HOOK_COMMITS = ["3043224", "4e02347", "ab15573"]
+HOOK_COMMITS = ["3043224", "4e02347", "ab15573", "de2eede"]
 NOT_YET = {}
 
 # group modules p_<group>.py register their properties: def register(PROPS): PROPS["Cxx"] = {...}
